@@ -20,6 +20,16 @@ CHECKS = {
          "exact per (pool, side, asset) aggregate == sum over MTPs, counter equality, reserve >= custody after every block", "6/C09", TB),
  "C11": ("exploration", "runtime invariant monitor at every commit",
          "exact accounted-pool equation after every block of histories that end blocks on perpetual ops and on AMM ops", "6/C11", TB),
+ "C12": ("exploration", "runtime invariant monitor + reference lock-up ledger over per-step state diffs",
+         "exact TotalCommitted == sum over accounts per denom (known defect matched by its exact arithmetic relation to the monitor's own uncommit ledger), custody >= committed + claimed, committed >= unexpired reference locks after every owner-signed tx", "6/C12", TB),
+ "C13": ("exploration", "runtime solvency / flow / monotonicity monitor at every tx and block-phase boundary + drain test",
+         "exact solvency inequality per reward denom after every block; per block credited <= collected; no holder's claimable reward grows outside the distribution step and there only by acc-delta x shares committed at that moment; every claim of the final drain succeeds", "6/C13", TB),
+ "C15": ("exploration", "runtime supply monitor with bank mint/burn event attribution",
+         "per denom supply delta after every block explained by, and every mint/burn event checked against, the rule of its denom class (external: none; native: vesting release / burner, gov, slashing; shares: with matching deposit move); sum of balances == supply", "6/C15", TB),
+ "C18": ("fault_enumeration", "fault-schedule enumeration over real ABCI blocks + substitution-twin differential",
+         "every block of every base history x enumerated fault schedule (oracle outages, block-time gaps, every module's validation-accepted parameter edges through real governance) must finalize and commit; a twin replica in which failed txs are replaced by a trivially failing tx must reach the same AppHash after every block", "6/C18", TB),
+ "C19": ("fault_enumeration", "differential replicas with restart and crash-before-commit injected at every height",
+         "primary (probed) vs un-probed replica vs replica restarted after every height vs replica crashed between FinalizeBlock and Commit at every height: AppHash, tx results and block-event multisets equal after every block", "6/C19", TB),
 }
 
 m = {"version": 1, "setup_cmd": "./setup.sh",
